@@ -765,27 +765,36 @@ func (f *FeaturesByID) fillPathSegments(point b6.FeatureID, path b6.FeatureID, s
 			}
 			var p Path
 			p.Unmarshal(&fb.Namespaces, b)
-			previous := 0
-			var position int
-			next := p.PathLen(fb.Strings) - 1
+			n := p.PathLen(fb.Strings)
+			// A point can occur more than once along a path (the first and
+			// last point of a closed path, or a path that revisits a point):
+			// traverse from each occurrence.
 			var pf b6.PhysicalFeature
-			for i := 0; i < p.PathLen(fb.Strings); i++ {
-				if id, ok := p.Reference(i, fb.Strings); ok {
-					if pf == nil {
-						_, ns := id.TypeAndNamespace.Split()
-						if id.Value == point.Value && fb.NamespaceTable.Decode(ns) == point.Namespace {
-							pf = b6.WrapPhysicalFeature(f.newPathFromEncodedPath(fb, path.Value, &p), f)
-							position = i
-						} else if f.isGraphNode(id) {
-							previous = i
-						}
-					} else if f.isGraphNode(id) {
+			for position := 0; position < n; position++ {
+				id, ok := p.Reference(position, fb.Strings)
+				if !ok || id.Value != point.Value {
+					continue
+				}
+				if _, ns := id.TypeAndNamespace.Split(); fb.NamespaceTable.Decode(ns) != point.Namespace {
+					continue
+				}
+				if pf == nil {
+					pf = b6.WrapPhysicalFeature(f.newPathFromEncodedPath(fb, path.Value, &p), f)
+				}
+				previous := 0
+				for i := position - 1; i > 0; i-- {
+					if id, ok := p.Reference(i, fb.Strings); ok && f.isGraphNode(id) {
+						previous = i
+						break
+					}
+				}
+				next := n - 1
+				for i := position + 1; i < n-1; i++ {
+					if id, ok := p.Reference(i, fb.Strings); ok && f.isGraphNode(id) {
 						next = i
 						break
 					}
 				}
-			}
-			if pf != nil {
 				if previous != position {
 					segments = append(segments, b6.Segment{Feature: pf, First: position, Last: previous})
 				}
